@@ -441,3 +441,8 @@ Lemma ar_side_ccw_pos rad : 0 < rad -> ar_side CCW rad = -1.
 Proof. intros H. unfold ar_side. destruct (Rlt_dec 0 rad); lra. Qed.
 Lemma ar_side_ccw_neg rad : rad <= 0 -> ar_side CCW rad = 1.
 Proof. intros H. unfold ar_side. destruct (Rlt_dec 0 rad); lra. Qed.
+
+(* helix / spiral / thread: z is linear in the swept angle as well (z uses the same arc_z) *)
+Theorem helix_z_linear d ox oy oz tx ty h cx cy turns th : hx_total d ox oy tx ty cx cy turns <> 0 ->
+  arc_z oz h th = oz + h * (hx_angle d ox oy tx ty cx cy turns th - a_start ox oy cx cy) / hx_total d ox oy tx ty cx cy turns.
+Proof. intros HT. unfold arc_z, hx_angle. field. exact HT. Qed.
